@@ -36,7 +36,26 @@ let statics = [|
 let static k = statics.(if k > 6 then 6 else k)
 
 exception Pre
+exception Perr
 exception Pan of string
+
+(* digits of a text in the radix; IBig::from_str_radix: optional sign, digits and '_' separators, at least one digit *)
+let digit_of c radix =
+  let d = match c with '0' .. '9' -> Char.code c - 48 | 'a' .. 'z' -> Char.code c - 87 | 'A' .. 'Z' -> Char.code c - 55 | _ -> 99 in
+  if d < radix then Some d else None
+let split_sign text =
+  let n = String.length text in
+  if n > 0 && text.[0] = '-' then (true, String.sub text 1 (n - 1))
+  else if n > 0 && text.[0] = '+' then (false, String.sub text 1 (n - 1)) else (false, text)
+let chars_of body = List.init (String.length body) (String.get body)
+let parse_text text radix : Zar.t option =
+  let neg, body = split_sign text in
+  let ok = ref true and any = ref false and acc = ref Zar.zero in
+  String.iter (fun c -> if c <> '_' then (match digit_of c radix with
+    | Some d -> any := true; acc := Zar.add (Zar.mul !acc (zi radix)) (zi d)
+    | None -> ok := false)) body;
+  if !ok && !any then Some (if neg then Zar.neg !acc else !acc)
+  else if not !any && List.for_all (fun c -> c = '_') (chars_of body) then None else None
 
 let wrap bits signed m =
   let m = Zar.logand m (Zar.pred (pow2 bits)) in
@@ -140,6 +159,17 @@ let spec_step (v : Zar.t array) (t : string array) : string * int =
       | "pow" -> v.(s 1) <- Zar.pow v.(s 2) (s 3); s 1
       | "sqr" -> nonneg [ s 2 ]; v.(s 1) <- Zar.mul v.(s 2) v.(s 2); s 1
       | "sqrt" -> nonneg [ s 2 ]; v.(s 1) <- Zar.sqrt v.(s 2); s 1
+      | "isqrt" -> if Zar.sign v.(s 2) < 0 then raise (Pan "RootNegative"); v.(s 1) <- Zar.sqrt v.(s 2); s 1
+      | "sqrtrem" ->
+          let d = s 1 and e = s 2 and a = s 3 in
+          if d = e then raise Pre; nonneg [ a ];
+          let x = v.(a) in let q = Zar.sqrt x in
+          v.(d) <- q; v.(e) <- Zar.sub x (Zar.mul q q); d
+      | "inot" -> let x = v.(s 3) in if t.(1) = "v" then v.(s 3) <- Zar.zero; v.(s 2) <- Zar.lognot x; s 2
+      | "pstr" ->
+          (match parse_text t.(3) (s 2) with
+           | Some x -> v.(s 1) <- x; s 1
+           | None -> raise Perr)
       | "addp" -> v.(s 1) <- Zar.add v.(s 1) (small_prim t.(2) (z t.(3))); s 1
       | "subp" -> v.(s 1) <- Zar.sub v.(s 1) (small_prim t.(2) (z t.(3))); s 1
       | "mulp" -> v.(s 1) <- Zar.mul v.(s 1) (small_prim t.(2) (z t.(3))); s 1
@@ -147,12 +177,14 @@ let spec_step (v : Zar.t array) (t : string array) : string * int =
           (* arithmetic modulo |v[b]| through ConstDivisor / Reduced / the Reducer interface *)
           let kind = t.(1) and d = s 2 and a = s 3 and b = s 4 and e = s 5 in
           let m = Zar.abs v.(b) in
-          if Zar.leq m Zar.one then raise Pre;
+          if kind = "new0" && Zar.sign m = 0 then raise (Pan "DivideBy0");
+          if Zar.leq m Zar.one && kind <> "new0" then raise Pre;
           let emod x = Zar.erem x m in
           let inv x = if Zar.equal (Zar.gcd x m) Zar.one then Zar.invert x m else Zar.zero in
           let sgn x y = if Zar.sign x < 0 then Zar.neg y else y in
           let r = match kind with
-            | "new" -> v.(b) <- Zar.zero; m
+            | "new" | "new0" -> v.(b) <- Zar.zero; m
+            | "cf" -> emod v.(a)
             | "res" -> emod v.(a)
             | "mul" -> let x = emod v.(a) and y = emod v.(d) in emod (Zar.sub (Zar.add (Zar.mul x y) x) y)
             | "inv" -> inv (emod v.(a))
@@ -172,6 +204,7 @@ let spec_step (v : Zar.t array) (t : string array) : string * int =
     ("ok", d)
   with
   | Pre -> ("e", -1)
+  | Perr -> ("perr", -1)
   | Pan c -> ("p" ^ c, -1)
 
 (* translation of a harness step into operations of the Coq machine (slots 4 and 5 are temporaries) *)
@@ -242,7 +275,7 @@ let model_ops1 (v : Zar.t array) (t : string array) : op list option =
   | _ -> None
 
 (* round 3: steps of the extended machine (Model.op2); everything else is wrapped with O1 *)
-let model_ops (v : Zar.t array) (t : string array) : op2 list option =
+let model_ops2 (v : Zar.t array) (t : string array) : op2 list option =
   let s i = usz t.(i) in
   let n i = nat_of_int (s i) in
   let tmp = nat_of_int 4 in
@@ -291,6 +324,94 @@ let model_ops (v : Zar.t array) (t : string array) : op2 list option =
        | _ -> None)
   | _ -> (match model_ops1 v t with Some l -> Some (o1 l) | None -> None)
 
+(* round 4: steps of the machine of StorageOps3.v (Model.op3); everything else is wrapped with O2.  Slots 4, 5, 6 are temporaries. *)
+let max_exp_in_word radix =
+  let r = zi radix in
+  let rec go k pw = if Zar.lt (Zar.mul pw r) b64 then go (k + 1) (Zar.mul pw r) else (k, pw) in
+  go 1 r
+let fmt_radix x radix =
+  let rec go a acc = if Zar.sign a = 0 then acc else
+      let q, r = Zar.div_rem a (zi radix) in go q (String.make 1 "0123456789abcdefghijklmnopqrstuvwxyz".[Zar.to_int r] ^ acc) in
+  (if Zar.sign x < 0 then "-" else "") ^ (if Zar.sign x = 0 then "0" else go (Zar.abs x) "")
+(* the steps of IBig::from_str_radix(text, radix) into slot d *)
+let parse_ops d text radix : op3 list option =
+  let neg, body = split_sign text in
+  let sgn = if neg then Negative else Positive in
+  if List.for_all (fun c -> c = '_') (chars_of body) then Some []   (* ParseError::NoDigits before anything happens *)
+  else begin
+    let body = let i = ref 0 in while !i < String.length body && body.[!i] = '0' do incr i done; String.sub body !i (String.length body - !i) in
+    let chars = chars_of body in
+    if radix land (radix - 1) = 0 then begin
+      let lr = let rec lg k = if 1 lsl k = radix then k else lg (k + 1) in lg 1 in
+      let items = List.rev_map (fun c -> if c = '_' then PSep else match digit_of c radix with Some d -> PD (zi d) | None -> PBad) chars in
+      Some [ OParse2 (d, sgn, zi lr, items) ]
+    end else begin
+      let bytes = List.filter (fun c -> c <> '_') chars in
+      let dpw, rpw = max_exp_in_word radix in
+      let nb = List.length bytes in
+      if nb > 256 * dpw then None
+      else begin
+        (* rchunks(dpw): groups counted from the end, processed most significant first *)
+        let arr = Array.of_list bytes in
+        let first = if nb mod dpw = 0 then dpw else nb mod dpw in
+        let group lo hi =
+          let ok = ref true and acc = ref Zar.zero in
+          for i = lo to hi - 1 do (match digit_of arr.(i) radix with Some dg -> acc := Zar.add (Zar.mul !acc (zi radix)) (zi dg) | None -> ok := false) done;
+          if !ok then Some !acc else None in
+        let rec go lo acc = if lo >= nb then List.rev acc else let hi = if lo = 0 then min nb first else lo + dpw in go hi (group lo hi :: acc) in
+        Some [ OParseN (d, sgn, rpw, go 0 []) ]
+      end
+    end
+  end
+let model_ops (v : Zar.t array) (t : string array) : op3 list option =
+  let s i = usz t.(i) in
+  let n i = nat_of_int (s i) in
+  let t4 = nat_of_int 4 and t5 = nat_of_int 5 and t6 = nat_of_int 6 in
+  let nonneg l = List.for_all (fun i -> Zar.sign v.(i) >= 0) l in
+  let o1 l = List.map (fun o -> O2 (O1 o)) l in
+  let opnd by_val i = if by_val then ByVal (nat_of_int i) else ByRef (nat_of_int i) in
+  let forms3 f form d a b =
+    let d = nat_of_int d and na = nat_of_int a and nb = nat_of_int b in
+    match form with
+    | "vv" | "av" -> if a <> b then [ OSBit (f, d, ByVal na, ByVal nb) ] else o1 [ OClone (t4, ByRef na) ] @ [ OSBit (f, d, ByVal na, ByVal t4) ]
+    | "vr" | "ar" -> if a <> b then [ OSBit (f, d, ByVal na, ByRef nb) ] else o1 [ OClone (t4, ByRef na) ] @ [ OSBit (f, d, ByVal na, ByRef t4) ] @ o1 [ ODrop t4 ]
+    | "rv" -> if a <> b then [ OSBit (f, d, ByRef na, ByVal nb) ] else o1 [ OClone (t4, ByRef nb) ] @ [ OSBit (f, d, ByRef t4, ByVal nb) ] @ o1 [ ODrop t4 ]
+    | _ -> [ OSBit (f, d, ByRef na, ByRef nb) ] in
+  match t.(0) with
+  | "sqrt" -> if nonneg [ s 2 ] then Some [ OSqrt (n 1, n 2) ] else Some []
+  | "isqrt" -> Some [ OSqrt (n 1, n 2) ]
+  | "sqrtrem" -> if s 1 = s 2 || not (nonneg [ s 3 ]) then Some [] else Some [ OSqrtRem (n 1, n 2, n 3) ]
+  | "iand" | "ior" | "ixor" ->
+      Some (forms3 (match t.(0) with "iand" -> SAnd | "ior" -> SOr | _ -> SXor) t.(1) (s 2) (s 3) (s 4))
+  | "inot" -> Some [ ONot (n 2, opnd (t.(1) = "v") (s 3)) ]
+  | "ishl" -> Some [ OIShl (n 2, opnd (t.(1) = "v") (s 3), zi (s 4)) ]
+  | "ishr" -> Some [ OIShr (n 2, opnd (t.(1) = "v") (s 3), zi (s 4)) ]
+  | "pstr" -> parse_ops (n 1) t.(3) (s 2)
+  | "rt" when t.(2) = "chunks" -> Some [ OChunks (n 1, zi (s 3)) ]
+  | "rt" when t.(2) = "str16" || t.(2) = "str10" || t.(2) = "str7" ->
+      let radix = match t.(2) with "str16" -> 16 | "str10" -> 10 | _ -> 7 in
+      (match parse_ops (n 1) (fmt_radix v.(s 1) radix) radix with
+       | Some l -> Some (o1 [ OMove (t4, n 1) ] @ l @ o1 [ ODrop t4 ])
+       | None -> None)
+  | "ring" ->
+      let kind = t.(1) and d = n 2 and a = n 3 and b = n 4 and e = zi (s 5) in
+      let m = Zar.abs v.(s 4) in
+      if Zar.leq m Zar.one && kind <> "new0" then Some []
+      else
+        let cl dst src = O2 (O1 (OClone (dst, ByRef src))) in
+        (match kind with
+         | "new" | "new0" -> Some [ ORing (RNew, d, t4, t5, b, e) ]
+         | "res" -> Some [ cl t6 b; cl t4 a; ORing (RRes, d, t4, t5, t6, e) ]
+         | "mul" -> Some [ cl t6 b; cl t4 a; cl t5 d; ORing (RMul, d, t4, t5, t6, e) ]
+         | "cf" ->
+             Some ([ cl t6 b; cl t4 a ] @ (if Zar.gt (Zar.abs v.(s 2)) Zar.one then [ cl t5 d ] else []) @ [ ORing (RCloneFrom, d, t4, t5, t6, e) ])
+         | "rem" -> Some [ cl t6 b; cl t4 a; ORing (RRem, d, t4, t5, t6, e) ]
+         | "remv" -> Some [ cl t6 b; O2 (O1 (OMove (t4, a))); ORing (RRem, d, t4, t5, t6, e) ]
+         | "div" -> Some [ cl t6 b; cl t4 a; ORing (RDiv, d, t4, t5, t6, e) ]
+         | "pow" -> Some [ cl t6 b; cl t4 a; ORing (RPow, d, t4, t5, t6, e) ]
+         | _ -> None)
+  | _ -> (match model_ops2 v t with Some l -> Some (List.map (fun o -> O2 o) l) | None -> None)
+
 let is_heap cap = abs cap > 2
 
 type rec_ = { outcome : string; dval : string; caps : int array; lens : int array; live : int; words : int; flags : int }
@@ -327,7 +448,7 @@ let judge op args got =
       let rest = ref rest in
       let take () = match !rest with x :: r -> rest := r; x | [] -> failwith "short answer" in
       let v = Array.make 4 Zar.zero in
-      let pool = ref [ zero; zero; zero; zero; zero; zero ] in
+      let pool = ref [ zero; zero; zero; zero; zero; zero; zero; zero ] in
       let mem = ref mem0 in
       let diffs = ref 0 and modelled = ref 0 and crossings = ref 0 and heap_seen = ref false in
       (* threshold events of the modelled ARITHMETIC steps of this history (statistic path=...):
@@ -339,14 +460,14 @@ let judge op args got =
       let bad i what = if !problem = None then problem := Some (Printf.sprintf "step %d: %s" i what) in
       let gcd_side = ref false in
       let run_op o =
-        match step2_64 !gcd_side o !pool !mem with
+        match step3_64 !gcd_side o !pool !mem with
         | Ok ((p, _), m) -> pool := p; mem := m; true
         | _ -> false in
       let resync_all i caps =
         (* rebuild the machine from the reported layout *)
-        pool := [ zero; zero; zero; zero; zero; zero ]; mem := mem0;
+        pool := [ zero; zero; zero; zero; zero; zero; zero; zero ]; mem := mem0;
         Array.iteri (fun k c ->
-          if not (run_op (O1 (OInstall (nat_of_int k, sg v.(k), words_of v.(k), zi (abs c))))) then bad i (Printf.sprintf "slot %d breaks the representation invariant" k)) caps in
+          if not (run_op (O2 (O1 (OInstall (nat_of_int k, sg v.(k), words_of v.(k), zi (abs c)))))) then bad i (Printf.sprintf "slot %d breaks the representation invariant" k)) caps in
       List.iteri (fun i st ->
         let t = Array.of_list st in
         if take () <> "S" then failwith "protocol";
@@ -390,7 +511,7 @@ let judge op args got =
              let saved_pool = !pool and saved_mem = !mem in
              (* the side in which gcd_in_place leaves its result is an input of the machine: either side is admitted *)
              let same = attempt false
-                        || (List.exists (function OGcd _ -> true | _ -> false) l && (pool := saved_pool; mem := saved_mem; attempt true)) in
+                        || (List.exists (function O2 (OGcd _) -> true | _ -> false) l && (pool := saved_pool; mem := saved_mem; attempt true)) in
              gcd_side := false;
              if not same then (incr diffs; resync_all i caps)
          | _ -> if !problem = None then resync_all i caps);
@@ -400,7 +521,8 @@ let judge op args got =
           | "uadd" | "usub" | "umul" | "iadd" | "isub" | "imul" | "shl" | "shr" | "setbit" | "clrbit"
           | "uand" | "uor" | "uxor" | "iand" | "ior" | "ixor" | "udiv" | "urem" | "idiv" | "irem"
           | "addp" | "subp" | "mulp" | "sadd" | "smul"
-          | "pow" | "sqr" | "ugcd" | "udivrem" | "npow2" | "chb" | "split" | "ishl" | "ishr" -> ops <> None && ops <> Some []
+          | "pow" | "sqr" | "ugcd" | "udivrem" | "npow2" | "chb" | "split" | "ishl" | "ishr"
+          | "sqrt" | "isqrt" | "sqrtrem" | "inot" | "ring" | "pstr" | "rt" -> ops <> None && ops <> Some []
           | _ -> false in
         if arith then
           for k = 0 to 3 do
